@@ -85,17 +85,7 @@ func (v *Vue) evaluate(ctx VueContext, nodes []*html.Node, depth int) ([]*html.N
 				continue
 			}
 
-			// Handle slot elements
-			if tag == "slot" {
-				slotResult, err := v.evalSlot(ctx, node, ctx.SlotScope)
-				if err != nil {
-					return nil, err
-				}
-				result = append(result, slotResult...)
-				continue
-			}
-
-			// Handle v-if chains (v-if, v-else-if, v-else) early, even for templates
+			// Handle v-if chains (v-if, v-else-if, v-else) early, even for templates and slots
 			// This ensures v-if/v-else-if/v-else are processed before template attributes
 			if helpers.HasAttr(node, "v-if") {
 				chainResult, skipCount, err := v.evalElseIfChain(ctx, node, nodes[i:], depth)
@@ -105,6 +95,16 @@ func (v *Vue) evaluate(ctx VueContext, nodes []*html.Node, depth int) ([]*html.N
 				result = append(result, chainResult...)
 				// Skip past the v-else-if and v-else nodes that were part of this chain
 				i += skipCount
+				continue
+			}
+
+			// Handle slot elements
+			if tag == "slot" {
+				slotResult, err := v.evalSlot(ctx, node, ctx.SlotScope)
+				if err != nil {
+					return nil, err
+				}
+				result = append(result, slotResult...)
 				continue
 			}
 
